@@ -10,6 +10,7 @@ def harnesses(tier):
     hs = [dict(name='c20_decision', src='c20/decision.c', defs=dict(NMAX=n, DS_CAP=8),
                units=[dict(src='repo:writer.c', cflags=['-include', 'vh_libc.h']), 'repo:stack.c', 'repo:char.c', 'common/ds_model.c'],
                unwind=6, unwindset=['vh_strcmp.0:19', 'process_metadata_stack.0:4', 'main.0:4', 'main.1:4', 'main.2:4', 'run.0:4', 'run.1:4'], timeout=1500, mem_gb=10,
+               functional=True,
                bounds='<= %d metadata entries x 14 keys x 2-byte values x 2^17 extension sets x 13 formats' % n,
                desc='process_metadata_stack: EXT_COMPLETE decision, frame condition, order independence')]
     return hs
